@@ -1,7 +1,7 @@
 #!/bin/bash
 # every seeded change (all rounds: seeded/<dir>/patch.diff) against the check of its own property, quick tier -> seeded/RESULTS.txt
 # usage: lib/seeded_matrix.sh [seeds...]   (default: 1)      env ONLY="C05 C05-r2A" restricts to the named directories
-out=/verif/seeded/RESULTS.txt; [ -z "$APPEND" ] && : > $out
+out=${OUT:-/verif/seeded/RESULTS.txt}; [ -z "$APPEND" ] && : > $out
 seeds=${@:-1}
 for d in /verif/seeded/*/; do id=$(basename $d); [ -f $d/patch.diff ] || continue
   [ -n "$ONLY" ] && ! echo " $ONLY " | grep -q " $id " && continue
